@@ -1064,6 +1064,36 @@ func checkC19(w *World) {
 			}
 		}
 	}
+	var typParam ssa.Value
+	if conv == nil {
+		// ... or a reflect.Type parameter whose Kind() selects among the scalar kinds
+		best := 0
+		for g := range closure {
+			for _, p := range g.Params {
+				n, ok := p.Type().(*types.Named)
+				if !ok || n.Obj().Name() != "Type" || n.Obj().Pkg() == nil || n.Obj().Pkg().Path() != "reflect" {
+					continue
+				}
+				arms := map[int64]bool{}
+				allInstrs(g, func(in ssa.Instruction) {
+					bo, ok := in.(*ssa.BinOp)
+					if !ok || bo.Op != token.EQL {
+						return
+					}
+					k, isK := constInt(bo.Y)
+					if !isK || reflectKindNames[k] == "" {
+						return
+					}
+					if recv, isKind := isMethodCall(bo.X, "Kind"); isKind && recv == ssa.Value(p) {
+						arms[k] = true
+					}
+				})
+				if len(arms) > best && len(arms) >= 8 {
+					best, conv, typParam = len(arms), g, p
+				}
+			}
+		}
+	}
 	if conv == nil {
 		w.undecided(P, "R19.1", "scalar conversion", um.Pos(), "no function with a reflect.Kind parameter reachable from Unmarshal")
 	} else {
@@ -1074,6 +1104,14 @@ func checkC19(w *World) {
 				return
 			}
 			c, ok := ret.Results[0].(*ssa.Call)
+			// reflect.ValueOf(x).Convert(typ) with typ the type whose kind selected the arm: the result has kind K
+			// by construction; what matters is that x did not pass through a Go type of another kind on the way
+			viaConvert := false
+			if ok && staticCallee(c) != nil && funcFullName(staticCallee(c)) == "(reflect.Value).Convert" && typParam != nil && len(c.Call.Args) == 2 && c.Call.Args[1] == typParam {
+				if inner, isCall := c.Call.Args[0].(*ssa.Call); isCall {
+					c, viaConvert = inner, true
+				}
+			}
 			if !ok || staticCallee(c) == nil || funcFullName(staticCallee(c)) != "reflect.ValueOf" {
 				w.check(P, "R19.1", "conversion for kind "+reflectKindNames[k], ret.Pos(), false, "arm does not return reflect.ValueOf(...)")
 				return
@@ -1136,6 +1174,11 @@ func checkC19(w *World) {
 					cur2 = cv.X
 				}
 				w.check(P, "R19.1", "conversion chain for kind "+reflectKindNames[k], ret.Pos(), !narrow, fmt.Sprintf("the number passes through %v; an intermediate type narrower than the field type (truncates values the field could hold): %v", via, narrow))
+			}
+			if viaConvert {
+				direct := nConv == 0
+				w.check(P, "R19.1", "conversion for kind "+reflectKindNames[k], ret.Pos(), src == wantSrc && (direct || got == k), fmt.Sprintf("case reflect.%s converts a %s built from %s() to the target type; required: %s() itself, or already of kind %s (an intermediate Go type of another kind loses the values it cannot hold, e.g. int64 for an unsigned field)", reflectKindNames[k], mi.X.Type().String(), src, wantSrc, reflectKindNames[k]))
+				return
 			}
 			w.check(P, "R19.1", "conversion for kind "+reflectKindNames[k], ret.Pos(), got == k && src == wantSrc, fmt.Sprintf("case reflect.%s returns a %s built from %s(); required kind %s from %s()", reflectKindNames[k], mi.X.Type().String(), src, reflectKindNames[k], wantSrc))
 		}
